@@ -440,8 +440,14 @@ def mcall (code : Code) : Nat → MVal → List MVal → Option MVal → MSt →
         match mev code fuel body fr st with
         | (.ret v, _, st) => (.norm v, st)
         | (.norm _, fr, st) =>
-          -- `emit_return`: an initialiser returns slot 0 with `GetLocal(0)`, everything else nil
-          (.norm (if kind = .init then fr.slots.getD 0 .nil else .nil), st)
+          -- `emit_return`: an initialiser returns `self` the way every use of `self` reads it (`variable_get`:
+          -- `GetLocal 0`, or `GetBox 0` when a closure inside the initialiser captured `self` and the prologue boxed
+          -- slot 0 — repair 7304c16), everything else nil
+          (.norm (if kind = .init then
+                    (match fr.slots.getD 0 .nil with
+                     | .box _ => (opGetBox st.boxes fr 0).getD .nil
+                     | v => v)
+                  else .nil), st)
         | (c, _, st) => (c, st)
     | .builtin "print" =>
       match as with
